@@ -10,7 +10,7 @@ WT=/tmp/bwmut/wt
 TG=/tmp/bwmut/target
 mkdir -p /tmp/bwmut
 if [ ! -d "$WT" ]; then git -C /repo worktree add --detach "$WT" HEAD >/dev/null 2>&1 || exit 2; fi
-git -C "$WT" checkout -q --detach "$(git -C /repo rev-parse HEAD)" && git -C "$WT" checkout -q -- . && git -C "$WT" clean -fdq
+git -C "$WT" checkout -q -- . && git -C "$WT" clean -fdq && git -C "$WT" checkout -q --detach "$(git -C /repo rev-parse HEAD)" || { echo "cannot reset scratch worktree"; exit 2; }
 if [ "$1" = "--patch" ]; then
   name=$(basename "$(dirname "$2")"); git -C "$WT" apply "$2" || { echo "MUTANT $name: patch does not apply"; exit 2; }; shift 2
 else
